@@ -228,7 +228,7 @@ func (w *World) verifyFunction(fn *ssa.Function, blk *Block, opts *Options) *Exe
 	}()
 	// a ghost assertion or loop-exit clause whose site no longer exists carries an obligation that can no longer be generated
 	for _, c := range clauses {
-		if (c.Kind == "before" || c.Kind == "after" || c.Kind == "loop-exit" || c.Kind == "loop-step") && !c.hit {
+		if (c.Kind == "before" || c.Kind == "after" || c.Kind == "loop-exit" || c.Kind == "loop-step" || c.Kind == "case-assume" || c.Kind == "case-ensures") && !c.hit {
 			where := fmt.Sprintf("loop %d", c.Loop)
 			if len(c.Names) > 0 {
 				where = c.Names[0]
